@@ -23,7 +23,7 @@ func init() {
 	})
 }
 
-var c15Kinds = []string{"toma-window", "toma-wrap", "topa-window", "topa-wrap", "variants-window", "samvariants-window", "variants-stdin"}
+var c15Kinds = []string{"toma-window", "toma-wrap", "topa-window", "topa-wrap", "variants-window", "samvariants-window", "variants-stdin", "toma-legacy-flags", "cli-vs-pkg"}
 
 func genWindow(r *Rand, L int) (int, int) {
 	s := r.Range(1, L)
@@ -59,6 +59,27 @@ func genC15(r *Rand, tier string, ord int) *Trial {
 				t.Case.Opts.Start, t.Case.Opts.End = s, e
 			}
 		}
+	case "toma-legacy-flags":
+		// through the real cobra command line: --trim/--trimstart/--trimend (0-based, half open) vs --start/--end
+		L := r.Range(4, 40)
+		sc := genSam(r, samSpec{L: L, Queries: r.Range(1, 6), MaxRecs: 3, Overlap: true, Conflict: 0.05, Ins: 0.05, Del: 0.05, Skip: 0.03, Junk: 0.1, Clip: 0.2})
+		t.Case = Case{Cmd: "toma", Files: map[string]string{"sam": sc.Text()}}
+		t.Case.Opts = Opts{Wrap: -1, Start: -1, End: -1, Pad: r.P(0.4), Threads: 1}
+		s, e := genWindow(r, L)
+		switch r.Intn(3) {
+		case 0:
+			s = -1
+		case 1:
+			e = -1
+		}
+		t.Params["s"], t.Params["e"] = strconv.Itoa(s), strconv.Itoa(e)
+		if r.Bool() {
+			t.Params["trimflag"] = "1"
+		}
+	case "cli-vs-pkg":
+		form := []string{"toma", "variants", "samvariants", "snps", "snps-agg", "closest", "closestn", "updownlist", "topranking"}[r.Intn(9)]
+		t.Case = *genCmdCase(r, form, caseSize{})
+		t.Params["form"] = form
 	case "topa-window", "topa-wrap":
 		L := r.Range(4, 40)
 		sc := genSam(r, samSpec{L: L, Queries: r.Range(1, 6), MaxRecs: 1, Ins: 0.08, Del: 0.05, Skip: 0.03, Junk: 0.1, Clip: 0.2, InsDisjoint: true})
@@ -351,6 +372,51 @@ func checkC15(t *Trial, ctx *Ctx) *Failure {
 				return f
 			}
 		}
+	case "toma-legacy-flags":
+		s, e := atoi(t.Params["s"]), atoi(t.Params["e"])
+		nw := t.Case
+		nw.Opts.Start, nw.Opts.End = s, e
+		cn, _ := cliCase(&nw)
+		co, _ := cliCase(&t.Case) // no window flags; legacy ones are appended
+		if t.Params["trimflag"] == "1" {
+			co.Opts.Args = append(co.Opts.Args, "--trim")
+		}
+		if s > 0 {
+			co.Opts.Args = append(co.Opts.Args, "--trimstart", strconv.Itoa(s-1))
+		}
+		if e > 0 {
+			co.Opts.Args = append(co.Opts.Args, "--trimend", strconv.Itoa(e))
+		}
+		rn := ctx.Run(t, 0, cn)
+		ro := ctx.Run(t, 1, co)
+		if rn.Out.Kind != simrt.Returned || rn.Err != nil {
+			ctx.Discard("new-flags run did not succeed")
+			return nil
+		}
+		b = rn
+		if f := mustOK(ro); f != nil {
+			return f
+		}
+		if string(ro.Stdout) != string(rn.Stdout) {
+			return fail("legacy-flags-differ", fmt.Sprintf("%v\n vs\n%v", cn.Opts.Args, co.Opts.Args), ro)
+		}
+		if string(rn.Stdout) != string(b.Stdout) || s > 1 || e > 0 {
+			ctx.Nontrivial()
+		}
+	case "cli-vs-pkg":
+		cc, ok := cliCase(&t.Case)
+		if !ok {
+			ctx.Discard("no command-line form for this case")
+			return nil
+		}
+		res := ctx.Run(t, 1, cc)
+		if f := mustOK(res); f != nil {
+			return f
+		}
+		if string(res.Stdout) != string(b.Stdout) {
+			return fail("command-line-differs-from-library-call", fmt.Sprintf("gofasta %v", cc.Opts.Args), res)
+		}
+		ctx.Nontrivial()
 	case "variants-stdin":
 		for i := 1; i < len(t.Runs); i++ {
 			v := t.Case
